@@ -185,6 +185,14 @@ def solve_one(job):
         if res['answer'] == 'sat':
             attempts[-1]['detail'] = 'sat under incomplete cardinality axioms: not trusted'
             res = None
+        elif job.get('z3_useq_text'):
+            # sequences abstracted to an uninterpreted sort (nth/len): only `unsat` is meaningful
+            r2 = run_z3(job['z3_useq_text'], [], budget)
+            r2['backend'] = (r2.get('backend') or 'z3') + '+useq'
+            attempts.append({k: r2.get(k) for k in ('backend', 'answer', 'time', 'detail')})
+            if r2['answer'] == 'unsat':
+                r2['attempts'] = attempts
+                return r2
     res2 = run_cvc5(job['cvc5_text'], outputs, budget)
     attempts.append({k: res2.get(k) for k in ('backend', 'answer', 'time', 'detail')})
     if res2['answer'] not in ('sat', 'unsat') and job.get('z3_text') and os.path.exists(OLD_Z3) \
@@ -210,7 +218,14 @@ def make_job(name, assertions, outputs=None, budget_ms=10000):
     except smt.Unsupported:
         z3_text = None
     cvc5_text = smt.script(assertions, 'cvc5', outs)
+    useq_text = None
+    if any(smt.uses_op(t, {'forall', 'exists'}) and smt.uses_op(t, {'seq.nth', 'seq.len'}) for t in assertions):
+        try:
+            useq_text = smt.script(assertions, 'z3', None, useq=True)
+        except smt.Unsupported:
+            useq_text = None
     return {'name': name, 'z3_text': z3_text, 'cvc5_text': cvc5_text, 'z3_weak': weak,
+            'z3_useq_text': useq_text,
             'outputs': list(outs), 'budget_ms': budget_ms}
 
 
